@@ -1,4 +1,5 @@
 import Ledger.Lock
+import Ledger.Proto
 import Ledger.Num.Funding
 import Ledger.Num.Spec
 import Ledger.Num.C01
